@@ -172,3 +172,7 @@ func sortedKeys[V any](m map[string]V) []string {
 	sort.Strings(ks)
 	return ks
 }
+
+func protoMarshal(m interface{ ProtoReflect() protoreflectMessage }) ([]byte, error) {
+	return protoMarshalAny(m)
+}
